@@ -112,6 +112,8 @@ func c15Schemas(c *core.Ctx, fl *inflight) {
 				"when": gen.S{"type": "string", "format": "date-time"}, "mail": gen.S{"type": "string", "format": "email"}, "ip": gen.S{"type": "string", "format": "ipv4"},
 				"ro": gen.S{"type": "string", "readOnly": true}, "wo": gen.S{"type": "string", "writeOnly": true},
 				"u": gen.S{"type": "array", "uniqueItems": true, "items": gen.S{"type": "number", "multipleOf": 0.5}},
+				// several types, written in no particular order
+				"multi": gen.S{"type": gen.Arr("string", "integer", "boolean", "array"), "items": gen.S{"type": gen.Arr("number", "boolean")}},
 			}},
 		}}}
 		b, _ := json.Marshal(doc)
@@ -125,6 +127,8 @@ func c15Schemas(c *core.Ctx, fl *inflight) {
 			gen.S{"name": fmt.Sprintf("r%dxabc", round*7919+int(c.Seed))}, gen.S{"name": "bad"}, gen.S{}, gen.S{"name": fmt.Sprintf("r%dxq", round*7919+int(c.Seed)), "od": gen.S{"x": 3.0}},
 			gen.S{"name": fmt.Sprintf("r%dxq", round*7919+int(c.Seed)), "one": gen.S{"t1": "v"}, "arr": gen.Arr(gen.S{}, gen.S{"k": "own"})},
 			gen.S{"name": fmt.Sprintf("r%dxq", round*7919+int(c.Seed)), "when": "2020-01-02T03:04:05Z", "mail": "a@b.c", "ip": "1.2.3.4", "u": gen.Arr(0.5, 1.0, 1.0)}, gen.S{"name": 5.0, "n": 0.0, "ro": "x", "wo": "y"}, "str", nil,
+			gen.S{"name": fmt.Sprintf("r%dxq", round*7919+int(c.Seed)), "multi": 1.5}, gen.S{"name": fmt.Sprintf("r%dxq", round*7919+int(c.Seed)), "multi": gen.Arr("s", 1.0)}, gen.S{"name": fmt.Sprintf("r%dxq", round*7919+int(c.Seed)), "multi": "fine"},
+			gen.S{"name": fmt.Sprintf("r%dxq", round*7919+int(c.Seed)), "multi": gen.S{}}, gen.S{"name": fmt.Sprintf("r%dxq", round*7919+int(c.Seed)), "multi": gen.Arr(true, 2.5)},
 		}
 		modes := []struct {
 			name string
@@ -266,7 +270,8 @@ func c15Gen(c *core.Ctx, fl *inflight) {
 			}
 			fresh = append(fresh, reflect.StructOf(fields))
 		}
-		types := append([]reflect.Type{reflect.TypeOf(c15Node{}), reflect.TypeOf(c15Inner{}), reflect.TypeOf([]c15Node{})}, fresh...)
+		// (c18ThingRef: a struct named ...Ref with fields Ref and Value is rendered as "a reference or the value")
+		types := append([]reflect.Type{reflect.TypeOf(c15Node{}), reflect.TypeOf(c15Inner{}), reflect.TypeOf([]c15Node{}), reflect.TypeOf(c18HasRef{}), reflect.TypeOf(c18ThingRef{})}, fresh...)
 		G := []int{8, 16, 32}[round%3]
 		out := make([][]string, G)
 		var wg sync.WaitGroup
